@@ -1184,6 +1184,12 @@ def p_qualifier(p):
     else:
         try:
             qval = cimvalue(qval, qualdecl.type)
+            if qualdecl.type == 'string':
+                # cimvalue() returns non-string values unchanged for 'string'
+                qvals = qval if isinstance(qval, list) else [qval]
+                if not all(v is None or isinstance(v, str) for v in qvals):
+                    raise ValueError(
+                        _format("Value {0!A} is not a string", qval))
         except (ValueError, TypeError) as exc:
             raise _value_error(p, "qualifier", qname, exc)
     try:
